@@ -147,6 +147,7 @@ fn main() {
             let w = a.num("walks", 0) as usize;
             if w > 0 {
                 d_lzma2::walks(&prop, seed, w, &mut rep);
+                d_lzma2::extremes(&prop, seed, &mut rep);
             }
             finish(rep, &a);
         }
